@@ -34,7 +34,7 @@ def run(m, chk):
         "weights of both operands; the ValueError interval test of KnotVector.split precedes the asserting heavy layer; no divisor on the split path is a bare node parameter (cut at 0). "
         "Equality of each piece with the original and the junction multiplicity are not decided."
     )
-    chk.decides = ["MIN-POINT (split uses nothing of a control point but scalar * point and point + point)", "CUTS-DISTINCT (pieces are made between consecutive members of a de-duplicated list of cut points)", "NONE-DEFAULT (split() without argument is recognised by `nodes is None`)", "DEHOMOG-PAIR (points divided by a list of weights are stored with exactly those weights)", "JOIN-HOMOG (both sides of the junction are scaled alike, so the weight function can be continuous there)", "MEMO-KEY (no function on the path is memoised by the value of numbers / knot vectors)", "PURE/FRESH(split, |)", "DEP-MUST weights of the pieces / of the joined curve", "GATE(max(A) = min(B))", "X-ASSERT(split)", "D", 'INTERVAL (pieces / join built on the operand knot values)', 'MULT-KEEP', 'DEP-MAY(pieces depend on the weights)', 'ELEM-COVER (the join reads the first control point of the right operand)', 'CLEAN-JUNCTION (every joined curve passes through knot_clean at the junction)']
+    chk.decides = ["DEFAULT-SAME-OPERAND (the stand-in weights of a polynomial operand of | are sized by that operand)", "MIN-POINT (split uses nothing of a control point but scalar * point and point + point)", "CUTS-DISTINCT (pieces are made between consecutive members of a de-duplicated list of cut points)", "NONE-DEFAULT (split() without argument is recognised by `nodes is None`)", "DEHOMOG-PAIR (points divided by a list of weights are stored with exactly those weights)", "JOIN-HOMOG (both sides of the junction are scaled alike, so the weight function can be continuous there)", "MEMO-KEY (no function on the path is memoised by the value of numbers / knot vectors)", "PURE/FRESH(split, |)", "DEP-MUST weights of the pieces / of the joined curve", "GATE(max(A) = min(B))", "X-ASSERT(split)", "D", 'INTERVAL (pieces / join built on the operand knot values)', 'MULT-KEEP', 'DEP-MAY(pieces depend on the weights)', 'ELEM-COVER (the join reads the first control point of the right operand)', 'CLEAN-JUNCTION (every joined curve passes through knot_clean at the junction)']
     chk.not_decided = ["each piece equals the original on its sub-interval", "that knot_clean reaches the minimal junction multiplicity (C14)"]
     r.pure("PURE", SPLIT, ["self", "nodes"])
     r.fresh_result("FRESH", SPLIT)
@@ -166,6 +166,9 @@ def run(m, chk):
     from .c16 import min_point
 
     min_point(r, chk, ["curves.Curve.split"], floor=2)
+    from .extra import default_same_operand
+
+    default_same_operand(r, chk, OR)
     from .extra import cuts_distinct
 
     cuts_distinct(r, chk, ["heavy.ImmutableKnotVector.split"], floor=1)
